@@ -2125,7 +2125,7 @@ pub mod verif {
         STATE.with(|s| {
             let mut s = s.borrow_mut();
             s.executed += 1;
-            let rooted = vm.fiber.as_ref().map(|f| f.as_gc().as_ptr() as usize);
+            let rooted = vm.fiber.as_ref().map(|f| std::cell::RefCell::as_ptr(&**f) as usize);
             if rooted != Some(vm.unsafe_fiber as usize) {
                 s.fiber_mismatch += 1;
             }
